@@ -96,10 +96,17 @@ Proof. vm_compute. reflexivity. Qed.
             cases.append({"cls": cls, "threads": 2, "schedule": sc})
         for _ in range(25 if c.tier == "quick" else 200):
             cases.append({"cls": cls, "threads": 3, "schedule": [c.rng.randrange(3) for _ in range(40)]})
+    # threads started through _thread (unknown to the threading module), and a lock holder that stays descheduled for more than a second
+    # while another thread waits for the lock
+    for cls in ("Dimension", "Prefix", "Unit", "UnitMul"):
+        for sc in (scheds[5:65:2] if c.tier == "quick" else scheds[::3]):
+            cases.append({"cls": cls, "threads": 2, "schedule": sc, "raw": True})
+        for a in (range(4, 10) if c.tier == "quick" else range(2, 16)):
+            cases.append({"cls": cls, "threads": 2, "schedule": [0] * a + [1] * 8 + [0] * 30, "stall": 1.25})
     # several worker processes in parallel
     import concurrent.futures
-    chunks = [cases[i::8] for i in range(8)]
-    with concurrent.futures.ThreadPoolExecutor(8) as ex:
+    chunks = [cases[i::12] for i in range(12)]
+    with concurrent.futures.ThreadPoolExecutor(12) as ex:
         outs = list(ex.map(lambda ch: impl("sched_worker.py", {"cases": ch}, timeout=1500), chunks))
     nlines = 0
     for ch, o in zip(chunks, outs):
